@@ -310,16 +310,12 @@ func burnTokens(ctx *action.Context, tracker *trackerlib.Tracker, oltTx ReportFi
 }
 
 func burnERC20Tokens(ctx *action.Context, tracker *trackerlib.Tracker, oltTx ReportFinality) error {
-	ethTx, err := ethereum.DecodeTransaction(tracker.SignedETHTx)
-	if err != nil {
-		return err
-	}
-
 	ethOpt, err := ctx.GovernanceStore.GetETHChainDriverOption()
 	if err != nil {
 		return gov.ErrGetEthOptions
 	}
-	token, err := ethereum.GetToken(ethOpt.TokenList, *ethTx.To())
+	// a redeem is sent to the lock contract; the token is named in the call (as runERC20Reddem reads it)
+	token, err := ethereum.ParseERC20RedeemToken(tracker.SignedETHTx, ethOpt.TokenList, ethOpt.ERCContractABI)
 	if err != nil {
 		return err
 	}
